@@ -324,6 +324,37 @@ def run_extractor(flavour, cfg, files, units, bare=(), opaque=(), vacuity=False,
     if not os.path.exists(opath):
         raise Undecided('extractor failed: ' + p.stderr[-2000:])
     out = json.load(open(opath))
+    # second pass: helpers / methods without a contract that OTHER files call (their world mode is
+    # computed per file by the extractor): make those effects known everywhere and extract again
+    extra = {}
+    for fname, fo in out['files'].items():
+        stem = os.path.basename(fname)[:-3]
+        for k, v in fo.get('auto_effects', {}).items():
+            if k.startswith('.'):
+                if k not in ecfg['effects_method']:
+                    extra.setdefault('m', {})[k] = v
+            elif '::' in k:
+                if not k.startswith('Self::') and k not in ecfg['effects_path']:
+                    extra.setdefault('p', {})[k] = v
+            else:
+                kk = f'{stem}::{k}'
+                if kk not in ecfg['effects_path']:
+                    extra.setdefault('p', {})[kk] = v
+                # also when imported (`use crate::content::path::ensure_dir;`) and called by its bare name
+                if k not in ecfg['effects_path']:
+                    extra.setdefault('p', {})[k] = v
+    if extra and not ecfg.get('_second_pass'):
+        ecfg['effects_path'].update(extra.get('p', {}))
+        for k, v in extra.get('m', {}).items():
+            ecfg['effects_method'][k] = v
+            ecfg.setdefault('effects_method_derived', []).append(k)
+        ecfg['_second_pass'] = True
+        json.dump(ecfg, open(cpath, 'w'), indent=1)
+        os.remove(opath)
+        p = subprocess.run([EXTRACTOR, cpath, opath], capture_output=True, text=True)
+        if not os.path.exists(opath):
+            raise Undecided('extractor failed (second pass): ' + p.stderr[-2000:])
+        out = json.load(open(opath))
     if out['errors']:
         raise Undecided('extraction undecided: ' + '; '.join(out['errors'][:10]))
     return out, active
